@@ -354,6 +354,28 @@ def deep_inputs(syn, b, rng):
     return out
 
 
+# a SET (no PER/OER codec: NULL entries in asn_OP_SET) below the top level, in every position from which a constructed
+# PER/OER decoder calls a member's decoder: alternative, member, element, extension addition (open type)
+NESTED_SET_TEXT = """WS DEFINITIONS AUTOMATIC TAGS ::= BEGIN
+  CS ::= CHOICE { n NULL, s SET { a BOOLEAN } }
+  QS ::= SEQUENCE { b BOOLEAN, s SET { a BOOLEAN } OPTIONAL }
+  LS ::= SEQUENCE OF SET { a BOOLEAN }
+  TS ::= SET OF SET { a BOOLEAN }
+  ES ::= SEQUENCE { b BOOLEAN, ..., s SET { a BOOLEAN } }
+  XS ::= CHOICE { n NULL, ..., s SET { a BOOLEAN } }
+END
+"""
+
+
+def nested_set_inputs(rng):
+    """short UPER/OER inputs that steer each decoder of module WS into the SET component (and some that do not)"""
+    fixed = ["80", "6000", "c0", "e0", "0180", "01ff", "0101ff", "8180", "818001ff", "80ff", "ff", "c04080", "8101ff", "80028000", "800201ff", "80010780018000",
+             "c0000180", "80", "8080", "0201ff", "810180", "a00180"]
+    out = [bytes.fromhex(h) for h in fixed]
+    out += [bytes([b]) for b in range(0, 256, 8)] + [rng.bytes(rng.range(2, 6)) for _ in range(24)]
+    return out
+
+
 def wide_layer(run, rng, tier):
     """modules over the wide algebra (no model): survival and consistency of all decoders on mutated inputs"""
     nmod, nty, nval = (6, 4, 2) if tier == "quick" else (16, 5, 4)
@@ -369,6 +391,7 @@ def wide_layer(run, rng, tier):
             run.count("wide_module_regenerated")
             continue
         wmods.append(wm)
+    wmods.append({"name": "WS", "text": NESTED_SET_TEXT, "defs": [(n, None) for n in re.findall(r"^\s*(\w+) ::=", NESTED_SET_TEXT, flags=re.M)]})
     tlog("wide: generating and building %d modules" % nmod)
     build_modules(wmods, tag="wide", moddrv_extra=INC, extra_ldflags=WRAP)
     tlog("wide: built")
@@ -428,6 +451,16 @@ def wide_layer(run, rng, tier):
         if len(lines) > maxlines:
             keep = sorted(set(rng.below(len(lines)) for _ in range(maxlines)))
             lines, metas = [lines[i] for i in keep], [metas[i] for i in keep]
+        if m["name"] == "WS":
+            # no valid PER/OER encoding exists to mutate (the encoders refuse a nested SET): direct short inputs
+            for tn, _ in m["defs"]:
+                for syn in ("uper", "oer"):
+                    for data in nested_set_inputs(rng):
+                        if (tn, syn, data) not in seen:
+                            seen.add((tn, syn, data))
+                            lines.append("d4 %s %s %s" % (tn, syn, hexs(data)))
+                            metas.append({"tn": tn, "syn": syn, "kind": "random", "data": data, "orig": data})
+                            run.count("wide_nested_set_input")
         jobs.append((m, lines, metas))
     tlog("wide: %d mutant lines generated" % sum(len(j[1]) for j in jobs))
     cres = run_many([(m["exe"], lines) for m, lines, metas in jobs], per_chunk=40, timeout=(150 if tier == "quick" else 1500))
